@@ -769,6 +769,104 @@ def check_c14(run):
                         "TbfMemoryMultiVVector is not instantiated by the library's containers and is not covered"]
 
 
+def matrix_cells(tier):
+    """The documented template configurations, one translation unit each."""
+    cells = []
+    orders = [(0, "morton"), (1, "periodic"), (2, "hilbert")]
+    if tier == "thorough":
+        for dim in (1, 2, 3, 4):
+            for real in ("float", "double"):
+                for o, oname in orders:
+                    if o == 2 and dim != 3:
+                        continue
+                    for autobs in (0, 1):
+                        for reb in (0, 1):
+                            for ex in (0, 1, 2):
+                                if ex == 1 and o == 1:
+                                    continue     # the periodic sequence is driven through the sequential executor in this unit
+                                cells.append(dict(DIMV=dim, REAL_T=real, ORDERV=o, AUTOBS=autobs, REBUILDV=reb, EXECV=ex))
+        for dim in (1, 2, 3, 4):
+            cells.append(dict(DIMV=dim, REAL_T="float", DATA_T="double", ORDERV=0, AUTOBS=0, REBUILDV=1, EXECV=0))
+            cells.append(dict(DIMV=dim, REAL_T="double", DATA_T="float", ORDERV=0, AUTOBS=1, REBUILDV=1, EXECV=2))
+            cells.append(dict(DIMV=dim, REAL_T="double", ORDERV=0, AUTOBS=0, REBUILDV=0, EXECV=0, NRHS=0))
+        return cells
+    # quick: a covering subset - every dimension with every ordering, every pair (dimension, executor), (ordering, rebuild), (real type, auto block size)
+    k = 0
+    for dim in (1, 2, 3, 4):
+        for o, oname in orders:
+            if o == 2 and dim != 3:
+                continue
+            for ex in (0, 1, 2):
+                if ex == 1 and o == 1:
+                    continue
+                cells.append(dict(DIMV=dim, REAL_T=("float", "double")[k % 2], ORDERV=o, AUTOBS=(k // 2) % 2, REBUILDV=(k // 3 + 1) % 2 if ex != 1 else 0, EXECV=ex))
+                k += 1
+    for dim in (1, 2, 3, 4):
+        cells.append(dict(DIMV=dim, REAL_T="float", DATA_T="double", ORDERV=0, AUTOBS=dim % 2, REBUILDV=1, EXECV=0))
+    cells.append(dict(DIMV=3, REAL_T="double", ORDERV=2, AUTOBS=1, REBUILDV=1, EXECV=0))
+    cells.append(dict(DIMV=3, REAL_T="double", ORDERV=1, AUTOBS=1, REBUILDV=1, EXECV=2))
+    cells.append(dict(DIMV=2, REAL_T="double", ORDERV=0, AUTOBS=0, REBUILDV=0, EXECV=0, NRHS=0))
+    cells.append(dict(DIMV=3, REAL_T="float", ORDERV=0, AUTOBS=1, REBUILDV=0, EXECV=1, NRHS=0))
+    return cells
+
+
+@check("C19", "exploration")
+def check_c19(run):
+    cells = matrix_cells(run.tier)
+    def cname(c):
+        return "matrix_" + "_".join("%s%s" % (k[0].lower() + k[1:3].lower(), v) for k, v in sorted(c.items()))
+    specs = [dict(name=cname(c), source="matrix.cpp", defines=["%s=%s" % kv for kv in c.items()], variant="plain") for c in cells]
+    # the configuration matrix is compiled WITHOUT -DNDEBUG so that library assertions are active too
+    built = {}
+    with ThreadPoolExecutor(max_workers=vlib.NCPU) as ex:
+        futs = {sp["name"]: ex.submit(build, sp["name"], sp["source"], sp["defines"], "plain", ("-UNDEBUG",)) for sp in specs}
+        for n, f in futs.items():
+            built[n] = f.result()
+    iters = 30 if run.tier == "quick" else 120
+    ran = 0
+    def runone(c):
+        n = cname(c)
+        path, err = built[n]
+        if path is None:
+            return n, c, None, err
+        rc, out, errtxt = run_bin(path, [run.seed, iters], timeout=900, env={"OMP_NUM_THREADS": "4"})
+        return n, c, (rc, out, errtxt), None
+    with ThreadPoolExecutor(max_workers=8) as ex:
+        results = list(ex.map(runone, cells))
+    total_scn = 0
+    for n, c, res, err in results:
+        if res is None:
+            log_txt = open(err).read()[-3000:] if err and os.path.exists(err) else ""
+            first = [l for l in log_txt.splitlines() if "error" in l][:1]
+            run.violation("compile:" + n, "configuration %s does not compile: %s" % (c, (first or ["see log"])[0][:240]), run.write_replay("compile-" + n, {"kind": "matrix", "cell": c, "log": log_txt}))
+            continue
+        rc, out, errtxt = res
+        mism, summary = parse_harness_output(out)
+        if summary is None:
+            run.violation("crash:" + n, "configuration %s aborted (exit %s): %s" % (c, rc, (errtxt or out)[-300:].replace("\n", " ")), run.write_replay("crash-" + n, {"kind": "matrix", "cell": c, "stderr": errtxt[-2000:]}))
+            continue
+        total_scn += summary.get("scenarios", 0)
+        ran += 1
+        seen = set()
+        for kind, key, text in mism:
+            if (kind, n) in seen:
+                continue
+            seen.add((kind, n))
+            run.violation(kind + ":" + key, text, run.write_replay(kind + "-" + n, {"kind": "matrix", "cell": c, "key": key, "text": text}))
+    run.coverage["evaluations"] = total_scn
+    run.coverage["distinct_nontrivial"] = len(cells)
+    run.coverage["translation_units"] = len(cells)
+    run.coverage["translation_units_run"] = ran
+    run.coverage["samples"] = [{"cell": c} for c in cells[:4]]
+    run.coverage["rule"] = ("one case = one translation unit of harness/matrix.cpp = one cell of {dimension 1-4} x {float, double coordinates} x {data type = or != coordinate type} x "
+                            "{Morton, periodic Morton (with the periodic top tree), Hilbert 3-D} x {explicit, automatic block size incl. TBFMM_BLOCK_SIZE} x {with, without rebuild} x "
+                            "{sequential, OpenMP (real libgomp, 4 threads), target/source} x {2, 0 result values}; each unit must compile (assertions on) and run %d seeded random scenarios with a "
+                            "counting kernel: exactly-once counts and index sums, stored-once / right-leaf / bit-exact data, export, rebuild preserving results and doubling them after a second pass; "
+                            "quick = a covering subset, thorough = the full product" % iters)
+    run.assumptions += ["the build configuration that enables OpenMP, Specx and StarPU at once needs mock runtime headers and is reported separately (DESIGN.md)",
+                        "this check decides by compilation + conformance runs generated from seeds, not by TLC: the configuration space is a space of programs; the exactly-once / construction / rebuild oracles are the closed forms proved on the model by C01/C06/C13"]
+
+
 @check("C15", "exploration")
 def check_c15(run):
     """No UB on valid inputs: the scenarios, histories and schedules generated by TLC are re-run on builds with AddressSanitizer (leaks,
@@ -847,6 +945,16 @@ def cmd_replay(args):
         for key, text, _ in (hit or viol)[:10]:
             log("REPRODUCED %s: %s" % (key, text))
         return 1 if hit or viol else 0
+    if obj.get("kind") == "matrix":
+        c = obj["cell"]
+        name = "matrix_replay"
+        path, err = build(name + "_" + vlib.sha(json.dumps(c, sort_keys=True)), "matrix.cpp", ["%s=%s" % kv for kv in c.items()], "plain", ("-UNDEBUG",))
+        if path is None:
+            print(open(err).read()[-3000:])
+            return 1
+        rc, out, errtxt = run_bin(path, [os.environ.get("VERIF_SEED", "1"), 30], env={"OMP_NUM_THREADS": "4"})
+        print(out[-3000:], errtxt[-1000:])
+        return 1 if rc != 0 else 0
     if obj.get("kind") == "fmm":
         binp, err = build("replay_fmm_%d_%d_64" % (obj["dim"], int(obj["periodic"])), "replay_fmm.cpp", ["DIMV=%d" % obj["dim"], "PERIODICV=%d" % int(obj["periodic"]), "CAPV=64"])
         if binp is None:
